@@ -945,7 +945,7 @@ PROP = Property(
           "(entry point, outcome class) | record-shape class."),
     strategy=strategy,
     run_case=run_case,
-    budgets={"quick": 3200, "thorough": 56000},
+    budgets={"quick": 4800, "thorough": 56000},
     assumptions=[
         "coverage-guided byte fuzzing is not used: entry points take <= 3 scalar "
         "arguments; records are generated format-aware",
